@@ -126,7 +126,7 @@ func newEnv(o lib.Opts) *env {
 	abs, _ := filepath.Abs(o.Out)
 	e.guard, _ = filepath.Abs(g)
 	e.layout = filepath.Join(e.guard, "deep", "layout")
-	e.regctl = filepath.Join(filepath.Dir(abs), "bin", "regctl")
+	e.regctl = lib.FindBin(abs, "regctl")
 	return e
 }
 
